@@ -432,3 +432,153 @@ func init() {
 	addMutant(Mutant{Prop: "C20", Name: "tarxz-previous-errors-swallowed", File: "internal/crosscompile/fetch.go",
 		Old: "\tcmd := exec.Command(\"tar\", \"-xf\", tarXzFile, \"-C\", dest)\n\treturn cmd.Run()", New: "\tcmd := exec.Command(\"tar\", \"-xf\", tarXzFile, \"-C\", dest)\n\tif err := cmd.Run(); err != nil {\n\t\tif strings.HasSuffix(err.Error(), \"2\") {\n\t\t\treturn nil\n\t\t}\n\t\treturn err\n\t}\n\treturn nil", Expect: "R20.6 crosscompile.extractTarXz"})
 }
+
+// checkEmitDoEverywhere (R04.8): inside a range-over-func body a defer belongs to the enclosing function's
+// frame; emitDo routes it to that frame's explicit stack.  Every call lowering of callEx must go through it.
+func checkEmitDoEverywhere(c *Ctx, cp *packages.Package) {
+	c.Rule("R04.8", "every call lowering in cl.callEx goes through emitDo, which sends a defer made inside a range-over-func body to the enclosing frame (direct Builder.Do is used by emitDo only)", 1)
+	info := cp.TypesInfo
+	exempt := map[string]string{"llgoBoolToUint8": "an intrinsic conversion that is evaluated inline and cannot be the operand of defer/go"}
+	fd := findFunc(cp, "context.callEx")
+	if fd == nil {
+		c.Undecided("R04.8", "cl.context.callEx", 0, "function not found")
+		return
+	}
+	c.nfuncs++
+	n := 0
+	ast.Inspect(fd.Body, func(x ast.Node) bool {
+		call, ok := x.(*ast.CallExpr)
+		if !ok {
+			return true
+		}
+		f := calleeOf(info, call)
+		if f == nil || f.Name() != "Do" || recvNamed(f) != "aBuilder" && recvNamed(f) != "Builder" {
+			return true
+		}
+		if len(call.Args) < 2 || exprStr(call.Args[0]) != "act" {
+			return true
+		}
+		n++
+		arm := "?"
+		for _, cc := range enclosingCases(fd.Body, call) {
+			if len(cc.List) > 0 {
+				arm = exprStr(cc.List[0])
+			}
+		}
+		if arm == "?" {
+			for _, cp2 := range pathConds(fd.Body, call) {
+				if cp2.pol {
+					arm = "if " + exprStr(cp2.cond)
+				}
+			}
+		}
+		key := "cl.context.callEx direct Builder.Do in arm " + arm
+		if why, ok := exempt[arm]; ok {
+			c.OK("R04.8", key, call.Pos(), why)
+			return true
+		}
+		c.Bad("R04.8", key, call.Pos(), "this lowering bypasses emitDo: a defer of this call shape made inside a range-over-func body is recorded on the synthetic yield closure, which has no defer frame, and never runs")
+		return true
+	})
+	if n == 0 {
+		c.OK("R04.8", "cl.context.callEx has no direct Builder.Do", fd.Pos(), "all lowerings use emitDo")
+	}
+}
+
+// checkRelPathSeparator (R16.7): "outside the package directory" means the relative path IS ".." or starts with
+// "../"; a name that merely starts with two dots (..note.txt) is inside.
+func checkRelPathSeparator(c *Ctx, p *packages.Package) {
+	c.Rule("R16.7", "a path is outside the package directory only if its relative form is \"..\" or starts with \"..\" + separator", 1)
+	fd := findFunc(p, "RelPath")
+	if fd == nil {
+		c.Undecided("R16.7", "goembed.RelPath", 0, "function not found")
+		return
+	}
+	c.nfuncs++
+	info := p.TypesInfo
+	n := 0
+	for _, call := range callsIn(fd.Body) {
+		if !isCallTo(info, call, "strings.HasPrefix") || len(call.Args) != 2 {
+			continue
+		}
+		n++
+		arg := ast.Unparen(call.Args[1])
+		ok := false
+		if be, isBin := arg.(*ast.BinaryExpr); isBin && be.Op == token.ADD {
+			if s, isC := constString(info, be.X); isC && s == ".." {
+				ok = true
+			}
+		}
+		if s, isC := constString(info, arg); isC && (s == "../" || s == "..\\") {
+			ok = true
+		}
+		c.Check(ok, "R16.7", "goembed.RelPath outside test includes the separator", call.Pos(), "HasPrefix(rel, \"..\"+separator)",
+			"the test is HasPrefix(rel, "+exprStr(arg)+"): a top-level file or directory whose name starts with two dots (..note.txt) is rejected as outside the package, while the Go toolchain embeds it")
+	}
+	if n == 0 {
+		c.Undecided("R16.7", "goembed.RelPath outside test", fd.Pos(), "no strings.HasPrefix test")
+	}
+}
+
+// checkStructFieldOffsetSource / checkStructAlignAllFields (R08.9)
+func checkStructDescriptorSources(c *Ctx, sp, ap *packages.Package) {
+	c.Rule("R08.9", "descriptor field offsets come from the same LLVM struct as generated code (the raw type, not converted a second time), and a struct's alignment is the maximum over ALL its fields, blank ones included", 2)
+	if fd := findFunc(sp, "Builder.abiStructFields"); fd == nil {
+		c.Undecided("R08.9", "ssa.Builder.abiStructFields offsets", 0, "function not found")
+	} else {
+		c.nfuncs++
+		v := newFnView(sp, fd)
+		n := 0
+		for _, call := range callsIn(fd.Body) {
+			f := calleeOf(sp.TypesInfo, call)
+			if f == nil || f.Name() != "OffsetOf" || len(call.Args) != 2 {
+				continue
+			}
+			n++
+			name, _, isCall := v.call(v.res(call.Args[0]))
+			c.Check(isCall && strings.HasSuffix(name, "Program.rawType"), "R08.9", "ssa.Builder.abiStructFields offsets are taken from the raw struct", call.Pos(), "prog.OffsetOf(prog.rawType(t), i)",
+				"the struct used for the offsets is produced by "+name+": converting an already raw struct again turns the one-word C function pointers of a C-background struct into two-word closures, so every later field is recorded one word late")
+		}
+		if n == 0 {
+			c.Undecided("R08.9", "ssa.Builder.abiStructFields offsets", fd.Pos(), "no OffsetOf call")
+		}
+	}
+	if fd := findFunc(ap, "Builder.Align"); fd == nil {
+		c.Undecided("R08.9", "abi.Builder.Align struct fields", 0, "function not found")
+	} else {
+		arms, _ := typeSwitchArms(fd)
+		cc := arms["Struct"]
+		if cc == nil {
+			c.Undecided("R08.9", "abi.Builder.Align struct fields", fd.Pos(), "no struct arm")
+		} else {
+			skip := ""
+			ast.Inspect(cc, func(n ast.Node) bool {
+				is, ok := n.(*ast.IfStmt)
+				if !ok {
+					return true
+				}
+				for _, st := range is.Body.List {
+					if br, isBr := st.(*ast.BranchStmt); isBr && br.Tok == token.CONTINUE {
+						skip = exprStr(is.Cond)
+					}
+				}
+				return true
+			})
+			c.Check(skip == "", "R08.9", "abi.Builder.Align considers every field of a struct", cc.Pos(), "no field is skipped", "fields are skipped when "+skip+": struct{_ [0]uint64; v uint32} gets descriptor alignment 4 while unsafe.Alignof and LLVM use 8")
+		}
+	}
+}
+
+func init() {
+	addMutant(Mutant{Prop: "C16", Name: "relpath-bare-dotdot-prefix", File: "internal/goembed/goembed.go",
+		Old: "if rel == \"..\" || strings.HasPrefix(rel, \"..\"+string(filepath.Separator)) {", New: "if strings.HasPrefix(rel, \"..\") {", Expect: "R16.7"})
+	addMutant(Mutant{Prop: "C08", Name: "structfields-offsets-from-converted-type", File: "ssa/abitype.go",
+		Old: "\t\ttyp := prog.rawType(t)\n", New: "\t\ttyp := prog.Type(t, InGo)\n", Expect: "R08.9 ssa.Builder.abiStructFields"})
+	addMutant(Mutant{Prop: "C08", Name: "align-skips-blank-fields", File: "ssa/abi/type.go",
+		Old: "\t\tfor i := 0; i < n; i++ {\n\t\t\tft := t.Field(i).Type()\n\t\t\tif align := b.Align(ft); align > typalign {", New: "\t\tfor i := 0; i < n; i++ {\n\t\t\tif t.Field(i).Name() == \"_\" {\n\t\t\t\tcontinue\n\t\t\t}\n\t\t\tft := t.Field(i).Type()\n\t\t\tif align := b.Align(ft); align > typalign {", Expect: "R08.9 abi.Builder.Align"})
+}
+
+func init() {
+	addMutant(Mutant{Prop: "C04", Name: "method-call-bypasses-emitdo", File: "cl/instr.go",
+		Old: "\t\tret = p.emitDo(b, act, ds, fn, llssa.Builder.Call, args...)\n\t\treturn\n\t}\n\tkind := p.funcKind(cv)", New: "\t\tret = b.Do(act, fn, llssa.Builder.Call, args...)\n\t\treturn\n\t}\n\tkind := p.funcKind(cv)", Expect: "R04.8"})
+}
